@@ -195,6 +195,7 @@ class C15(PropBase):
         "the run (before a cache clear, a rebuild in another order, a failed low-headroom build). Non-trivial: the build or probe follows "
         "a fired fault, or repeats an earlier one; distinct = distinct (operation digest, pre-state signature) pairs."
         ' Under the swept exhaustion fault a build is first attempted from every stack depth at which it cannot complete and later probes of that annotation are compared with a cold process; a share of the runs has warnings configured as errors.'
+        ' A share of the probes is first issued from every stack depth at which the call cannot complete (deferred positions are resolved by the first call) and then compared with a cold process.'
     )
     ASSUMPTIONS = ["the annotation grammar is sampled from a fixed pool of 50 U+ expressions plus generated U types, not enumerated to depth 2",
                    "what a non-pass-through U+ position converts to is not judged, only that construction works and is repeatable"]
